@@ -448,6 +448,21 @@ package xmss
 //@   requires paramsOK(params) && bdsShape(bdsState, params.h) && len(skSeed) >= 32 && len(pubSeed) >= 32
 //@   assigns bdsAll(bdsState)
 
+// treeHashMinHeightOnStack is the one BDS helper whose behaviour needs no traversal invariant: its body is verified
+// (not trusted).  The precondition is the local stack discipline its callers rely on.
+//@ func treeHashMinHeightOnStack
+//@   names state:*xmss.BDSState params:*xmss.XMSSParams treeHash:*xmss.TreeHashInst |  | r:uint32 i:uint32@1i | c1e73b59
+//@   props C01 C06 C08
+//@   requires treeHash.stackUsage <= state.stackOffset && state.stackOffset <= len(state.stackLevels)
+//@   ensures result <= params.h
+//@   ensures forall q_ :: 0 <= q_ && q_ < treeHash.stackUsage ==> result <= state.stackLevels[state.stackOffset - q_ - 1]
+//@   ensures result == params.h || exists q_ :: 0 <= q_ && q_ < treeHash.stackUsage && result == state.stackLevels[state.stackOffset - q_ - 1]
+//@   assigns
+//@   loop 1 invariant 0 <= i && i <= treeHash.stackUsage && r <= params.h
+//@   loop 1 invariant forall q_ :: 0 <= q_ && q_ < i ==> r <= state.stackLevels[state.stackOffset - q_ - 1]
+//@   loop 1 invariant r == params.h || exists q_ :: 0 <= q_ && q_ < i && r == state.stackLevels[state.stackOffset - q_ - 1]
+//@   loop 1 decreases treeHash.stackUsage - i
+
 //@ func getSeed
 //@   names hashFunction:xmss.HashFunction seed:[]uint8 skSeed:[]uint8 n:uint32 addr:*[8]uint32 |  | bytes:[32]uint8 | 
 //@   props C06
@@ -687,8 +702,16 @@ package xmss
 //@ func treeHashUpdate
 //@   names hashFunction:xmss.HashFunction treeHash:*xmss.TreeHashInst bdsState:*xmss.BDSState skSeed:[]uint8 params:*xmss.XMSSParams pubSeed:[]uint8 addr:*[8]uint32 |  | n:uint32 otsAddr:[8]uint32 lTreeAddr:[8]uint32 nodeAddr:[8]uint32 nodeBuffer:[]uint8 nodeHeight:uint32 srcOffset:uint32 destOffset:uint32 | 39adbcaa:SetTreeHeight,SetTreeIndex,hashH
 //@   reads addr[0:3]
-//@   assigns *treeHash, bdsAll(bdsState)
-//@   trusted "BDS traversal internals: only named here so that the `reads addr[0:3]` clause of bdsTreeHashUpdate can be checked transitively"
+//@   assigns *treeHash, treeHash.node, bdsState.stack, bdsState.stackOffset, bdsState.stackLevels
+//@   props C01 C06 C08
+//@   requires paramsOK(params) && bdsShape(bdsState, params.h) && len(skSeed) >= 32 && len(pubSeed) >= 32 && len(treeHash.node) >= 32
+//@   requires treeHash.stackUsage <= bdsState.stackOffset && bdsState.stackOffset <= params.h
+//@   ensures bdsShape(bdsState, params.h) && bdsState.stackOffset <= old(bdsState.stackOffset) + 1 && treeHash.stackUsage <= bdsState.stackOffset
+//@   ensures bdsState.stackOffset - treeHash.stackUsage == old(bdsState.stackOffset) - old(treeHash.stackUsage) && treeHash.h == old(treeHash.h)
+//@   ensures (treeHash.completed == 1 && treeHash.nextIdx == old(treeHash.nextIdx) && treeHash.stackUsage <= old(treeHash.stackUsage)) || (treeHash.completed == old(treeHash.completed) && treeHash.nextIdx == (old(treeHash.nextIdx) + 1) % 4294967296 && treeHash.stackUsage <= old(treeHash.stackUsage) + 1 && bdsState.stackOffset >= 1)
+//@   loop 1 invariant bdsState.stackOffset - treeHash.stackUsage == old(bdsState.stackOffset) - old(treeHash.stackUsage) && treeHash.h == old(treeHash.h) && treeHash.nextIdx == old(treeHash.nextIdx) && treeHash.completed == old(treeHash.completed) && treeHash.stackUsage <= old(treeHash.stackUsage)
+//@   loop 1 invariant treeHash.stackUsage <= bdsState.stackOffset && bdsState.stackOffset <= old(bdsState.stackOffset) && bdsShape(bdsState, params.h) && len(nodeBuffer) == 64 && n == 32 && len(treeHash.node) >= 32
+//@   loop 1 decreases treeHash.stackUsage
 
 // NOT CLAIMED (tag C08X is no property): the product-program lemma is well-formed and every argument of the two
 // pure traversal calls is provably pairwise equal, but z3/cvc5 do not decide the resulting VCs within the time
